@@ -25,6 +25,10 @@ def extend_history(ctx, sess, regs, n_ops, odd_bounds=False):
             args = (a, [S(e) for e in ex])
         else:
             args = (a, rand_bound(ctx.rng, odd_bounds), rand_bound(ctx.rng, odd_bounds))
+            if ctx.rng.random() < .25:
+                # a bound beyond every cut of typical markers: the first / last range survives whole and only the always-false edge is added
+                args = (a, args[1], ['E' if ctx.rng.random() < .5 else 'I', S(ctx.rng.choice(['3.11', '3.13', '4', '99']))]) if ctx.rng.random() < .5 else \
+                       (a, ['E' if ctx.rng.random() < .5 else 'I', S(ctx.rng.choice(['0', '1', '2.6', '3'])), ], args[2])
         reg, r = sess.op(k, *args)
         ctx.count('op:' + k)
         if reg is None:
